@@ -61,7 +61,10 @@ def id_generator_model(orig):
         summary = seq_sum(propositions, key)
         g = z3.Function("genid", z3.IntSort(), z3.IntSort(), z3.IntSort(), z3.IntSort())
         s = 0 if sign is None else sign
-        return SId(g(to_term(summary), to_term(value), to_term(s)))
+        out = g(to_term(summary), to_term(value), to_term(s))
+        from .sym import note_generated_id
+        note_generated_id(out)
+        return SId(out)
 
     def _intern(x):
         from .sym import intern_id
